@@ -23,6 +23,8 @@ Streams (group -> Coq checker):
                               per group = preparation + reset clean-up passes + measurement suffix; every subexperiment is
                               simulated by the harness's simulator, decoded with _process_outcome and the lookup, and each
                               observable's value is compared with Tr(rho P) of the ORIGINAL circuit
+  born2      chk_born2        the two-qubit state-vector specification of c11_born_two_qubits (Model/StateVec2.v = ev_st2/law_st2)
+                              vs qiskit's Statevector: random Gaussian-integer states, every general observable
   forced     chk_forced       cases the harness itself found wrong (independent oracle flagged them, or the implementation made a
                               later step impossible); they always fail in Coq so that the run judges and reports them
 `judge` is independent of the Coq model: plain Python restatement of the property text + own numpy simulator.
@@ -55,7 +57,7 @@ from common import CaseWriter, Res, Raw, Nc, Zc, Qc, Opt, call_canon, coq
 from circ import CircCtx, coq_circ
 
 IMPORTS = ("From Coq Require Import QArith.\n"
-           "From CKT Require Import Common.Base Common.Circ Model.Observables Model.Grouping Model.Measurement Corr.C11Corr.\n"
+           "From CKT Require Import Common.Base Common.Circ Model.Observables Model.Grouping Model.Measurement Model.StateVec2 Corr.C11Corr.\n"
            "Close Scope Q_scope.")
 CASE_TYPES = {
     "chk_mgo": "list pauli * option nat * res pauli",
@@ -66,6 +68,7 @@ CASE_TYPES = {
     "chk_reuse": "cog_tuple * list cog_tuple * list (N * list Z)",
     "chk_physics": "pauli * list pauli * list (N * Q) * list Q",
     "chk_e2e": "list pauli * list pauli * list (list pauli) * list (list (N * Q)) * list Q",
+    "chk_born2": "sv2 * list nat * list (N * Q) * list (list nat * Q)",
     "chk_forced": "nat",
 }
 LET = {(False, False): 0, (True, False): 1, (True, True): 2, (False, True): 3}
@@ -871,6 +874,28 @@ def exec_gce(case):
     return case
 
 
+def exec_born2(case):
+    """qiskit's answer for a two-qubit state with Gaussian-integer amplitudes: register law after the rotations for g,
+    and the expectation value of all 16 Pauli strings."""
+    amps, g = case["amps"], case["g"]
+    vec = np.array([complex(a, b) for a, b in amps], dtype=complex)
+    sv = Statevector(vec / np.linalg.norm(vec))
+    rot = sv
+    for q, l in enumerate(g):
+        if l == 1:
+            rot = rot.evolve(HGate(), [q])
+        elif l == 2:
+            rot = rot.evolve(SXGate(), [q])
+    pidx = support(g) or [0]
+    law = {}
+    for b, p in enumerate(rot.probabilities()):
+        wd = sum(((b >> q) & 1) << i for i, q in enumerate(pidx))
+        law[wd] = law.get(wd, 0.0) + float(p)
+    evs = [[[l0, l1], float(np.real(sv.expectation_value(mk_pauli(0, [l0, l1]))))] for l0 in range(4) for l1 in range(4)]
+    case["impl"] = ["ok", dict(law=sorted(law.items()), evs=evs)]
+    return case
+
+
 def own_law(case):
     branches = sim_prepare(case["nq"], [(o[0], o[1], o[2]) for o in case["prep"]])
     return sim_register_law(branches, case["nq"], case["impl"][1]["suffix"], case["impl"][1]["reg_bits"])
@@ -933,6 +958,7 @@ def generate(rng, tier, outdir):
     n_reuse = 150 if quick else 2500
     n_e2e = 60 if quick else 1200
     n_gce = 140 if quick else 3000
+    n_born2 = 96 if quick else 1600
     max_sim_n = 4 if quick else 6
 
     # the physics specification of Model/Measurement.v part B is the matrices qiskit uses
@@ -1344,6 +1370,25 @@ def generate(rng, tier, outdir):
     for it in range(n_gce):
         em.guard("gce", lambda: one_gce(it))
 
+    # ---------------- the two-qubit state-vector specification vs qiskit ----------------
+    def one_born2(it):
+        amps = [[int(rng.integers(-3, 4)), int(rng.integers(-3, 4))] for _ in range(4)]
+        if rng.integers(0, 4) == 0:
+            amps[int(rng.integers(0, 4))] = [0, 0]
+        if all(a == 0 and b == 0 for a, b in amps):
+            amps[0] = [1, 0]
+        g = [it % 4, (it // 4) % 4]  # all 16 general observables in turn
+        case = exec_born2(dict(kind="born2", amps=amps, g=g))
+        r = case["impl"][1]
+        st = Raw("(" + ", ".join(f"(({a})%Z, ({b})%Z)" for a, b in amps) + ")")
+        em.add("born2", "chk_born2",
+               (st, list(g), [(Nc(wd), Qc(Fraction(p))) for wd, p in r["law"]], [(list(m), Qc(Fraction(e))) for m, e in r["evs"]]),
+               case, nontrivial=True, key=("born2", it))
+        w.count("born2.g", "".join(LETTERS[l] for l in g))
+
+    for it in range(n_born2):
+        em.guard("born2", lambda: one_born2(it))
+
     w.notes.append(f"physics/e2e: max |decoded - expectation| over all members/observables = {em.max_dev:.3e}")
     w.notes.append(f"forced cases: {em.nforced}")
 
@@ -1364,7 +1409,9 @@ def generate(rng, tier, outdir):
         "initial, final, mid-circuit, interleaved, followed only by two-qubit gates with the reset qubit as second operand; observables "
         "identity on / acting on the reset qubits; 4 hand-written shapes first) through generate_cutting_experiments(.., inf); every "
         "subexperiment (preparation + reset clean-up passes + suffix) simulated by the harness, decoded by _process_outcome + lookup, "
-        "compared with Tr(rho P) of the original circuit. judge runs on every generated case (contract "
+        "compared with Tr(rho P) of the original circuit. born2: random two-qubit states with Gaussian-integer amplitudes x all 16 general "
+        "observables: the Coq state-vector specification (register law after H/SX rotations, all 16 Pauli expectations) vs qiskit's "
+        "Statevector. judge runs on every generated case (contract "
         "judge_accepts_clean_case); flagged or impossible cases are duplicated as always-failing `forced` cases. distinct = distinct Coq "
         "case literal; non-trivial = successful call with >1 observable / non-empty measurement"
     )
@@ -1492,6 +1539,8 @@ def judge(case):
         return _judge_e2e(case)
     if k == "gce":
         return _judge_gce(case)
+    if k == "born2":
+        return _judge_born2(case)
     raise ValueError(k)
 
 
@@ -1688,6 +1737,31 @@ def _judge_gce(case):
     return dict(violates=False, max_dev=worst, detail=f"every observable's decoded expectation within {worst:.2e}")
 
 
+def _judge_born2(case):
+    """No implementation function of /repo is involved (qiskit's Statevector vs the Coq specification): the harness's own
+    simulator must agree with qiskit here, otherwise the reference itself is in doubt."""
+    amps, g = case["amps"], case["g"]
+    vec = np.array([complex(a, b) for a, b in amps], dtype=complex)
+    vec = vec / np.linalg.norm(vec)
+    worst = 0.0
+    for m, e in case["impl"][1]["evs"]:
+        worst = max(worst, abs(sim_pauli_expectation([vec], 2, m) - e))
+    rot = vec
+    for q, l in enumerate(g):
+        if l in (1, 2):
+            rot = sim_apply1(rot, 2, _MATS["h" if l == 1 else "sx"], q)
+    pidx = support(g) or [0]
+    law = {}
+    for b, p in enumerate(np.abs(rot) ** 2):
+        wd = sum(((b >> q) & 1) << i for i, q in enumerate(pidx))
+        law[wd] = law.get(wd, 0.0) + float(p)
+    for wd, p in case["impl"][1]["law"]:
+        worst = max(worst, abs(law.get(wd, 0.0) - p))
+    return dict(violates=False, max_dev=worst,
+                detail=("reference simulators agree" if worst <= TOL else f"qiskit and the harness simulator differ by {worst:.2e}")
+                       + " (no implementation code involved)")
+
+
 def rerun(case):
     k = case["kind"]
     if k == "harness_error":
@@ -1712,4 +1786,6 @@ def rerun(case):
         return exec_e2e(case)
     if k == "gce":
         return exec_gce(case)
+    if k == "born2":
+        return exec_born2(case)
     raise ValueError(k)
